@@ -4,10 +4,10 @@ C17 — thread-LOCAL typing implies that EVERY feasible interleaving respects th
 
   `typed_interleavings_owned : S.OK → Interleaving S.P tr → feasible tr = true → ownRun S.sp tr = true`
 
-Organisation.  `Good S pre o f` (Lemmas/C17TypedB.lean) relates the state `o` of the ownership machine
+Organisation.  `GoodT S pre o f` (Lemmas/C17TypedB.lean) relates the state `o` of the ownership machine
 and the state `f` of the blocking semantics after a prefix `pre` of the trace to the positions of the
 threads in their programs: token `k` is at location `l` iff the thread-local view says so (`Exp`).
-`Good.init` is the invariant of the empty prefix, `Good.step` (one lemma per kind of event in
+`GoodT.init` is the invariant of the empty prefix, `GoodT.step` (one lemma per kind of event in
 C17TypedC/D/E.lean) carries it over one event that the blocking semantics allows and shows that the
 ownership machine accepts the event, `good_prefix` runs it over the whole trace (snoc induction,
 because `Interleaving` speaks about whole projections).
@@ -19,9 +19,9 @@ import DastardV.Lemmas.C17TypedE
 
 namespace DastardV.C17
 
-theorem Good.step {S : System} (ok : S.OK) {pre : Trace} {o : OSt} {f f' : FSt} {t : Tid} {e : Ev}
-    (g : Good S pre o f) (hI : Interleaving S.P (pre ++ [(t, e)])) (hF : stepF f (t, e) = some f') :
-    ∃ o', stepO S.sp o (t, e) = some o' ∧ Good S (pre ++ [(t, e)]) o' f' := by
+theorem GoodT.step {S : System} (ok : S.OK) {pre : Trace} {o : OSt} {f f' : FSt} {t : Tid} {e : Ev}
+    (g : GoodT S pre o f) (hI : Interleaving S.P (pre ++ [(t, e)])) (hF : stepF f (t, e) = some f') :
+    ∃ o', stepO S.sp o (t, e) = some o' ∧ GoodT S (pre ++ [(t, e)]) o' f' := by
   obtain ⟨H, H', cx⟩ := Ctx.mk' S ok pre t e hI
   cases e with
   | rd x => exact step_rd g cx hF
@@ -40,10 +40,10 @@ theorem Good.step {S : System} (ok : S.OK) {pre : Trace} {o : OSt} {f f' : FSt} 
 
 theorem good_prefix (S : System) (ok : S.OK) : ∀ tr : Trace,
     Interleaving S.P tr → feasible tr = true →
-    ∃ o f, runO S.sp (OSt.init S.sp) tr = some o ∧ runF FSt.init tr = some f ∧ Good S tr o f := by
+    ∃ o f, runO S.sp (OSt.init S.sp) tr = some o ∧ runF FSt.init tr = some f ∧ GoodT S tr o f := by
   intro tr
   induction tr using snoc_induction with
-  | h0 => intro _ _; exact ⟨_, _, rfl, rfl, Good.init S ok⟩
+  | h0 => intro _ _; exact ⟨_, _, rfl, rfl, GoodT.init S ok⟩
   | h1 pre te ih =>
     intro hI hFe
     obtain ⟨t, e⟩ := te
